@@ -42,9 +42,9 @@ FLOORS = {
     "F1": 10, "F2": 10, "F3": 10, "F4": 8, "F5": 25, "F6": 2, "F7": 1, "F9": 200, "F10": 1, "F11": 1, "F8": 8, "O1": 30,
     "O2": 6, "O3": 20, "S1": 20,
     "X1": 5, "X2": 40, "X3": 6, "X4": 1,
-    "P1": 3, "P2": 2, "P3": 5, "P4": 1, "P5": 2, "P6": 9, "P7": 5, "P8": 1, "P9": 1, "P10": 1, "P11": 1, "P12": 1,
+    "P1": 3, "P2": 2, "P3": 5, "P4": 1, "P5": 2, "P6": 9, "P7": 5, "P8": 1, "P9": 1, "P10": 1, "P11": 1, "P12": 1, "P13": 1,
     "E7": 30, "U1": 5, "S2": 12, "S3": 15, "G1": 6, "G2": 5, "G3": 8, "G4": 5, "G5": 1, "S1b": 6, "M1": 1,
-    "N1": 25, "N2": 8, "O4": 2, "O5": 4, "O6": 1, "O7": 2, "V1": 10, "V2": 1, "S4": 1, "S5": 2, "S6": 10, "S7": 4, "S1c": 12,
+    "N1": 25, "N2": 8, "O4": 2, "O5": 4, "O6": 1, "O7": 2, "V1": 10, "V2": 1, "S4": 1, "S5": 2, "S6": 10, "S7": 4, "S8": 1, "S1c": 12,
 }
 
 PROPERTIES = {}
@@ -108,7 +108,8 @@ prop(
            _t(T.rule_T3c, rows=("pausing", "paused")), _t(T.rule_T3d, rows=("pausing", "paused")),
            _t(T.rule_T3g, rows=("running", "pausing", "paused", "resuming")),
            _t(T.rule_T3h, rows=("pausing",)), _t(T.rule_T3e),
-           _t(T.rule_T3f), _t(T.rule_T4f), _t(T.rule_T4a), P.rule_P2, P.rule_P10, E.rule_F7],
+           _t(T.rule_T3f), _t(T.rule_T4f), _t(T.rule_T4a), P.rule_P2, P.rule_P10, P.rule_P13,
+           E.rule_F7],
     controls=[K.ctl_wf_drop_failed_cell, K.ctl_term_only_if_task_completed],
     exhaustive=True,
     explanation=(
@@ -131,7 +132,7 @@ prop(
     rules=[_t(T.rule_T3a, rows=("canceling",)), _t(T.rule_T3b, rows=("canceling",)),
            _t(T.rule_T3c, rows=("canceling",)), _t(T.rule_T3e), _t(T.rule_T3f),
            _t(T.rule_T3g), _t(T.rule_T3h, rows=("canceling",)), _t(T.rule_T4a), _t(T.rule_T4f),
-           P.rule_P2, P.rule_P7, P.rule_P10, E.rule_F10, G.rule_G1, G.rule_G2],
+           P.rule_P2, P.rule_P7, P.rule_P10, P.rule_P13, E.rule_F10, G.rule_G1, G.rule_G2],
     controls=[K.ctl_wf_canceling_to_succeeded, K.ctl_predicate_over_raw_sequence,
               K.ctl_term_only_if_task_completed, K.ctl_override_on_canceled],
     exhaustive=True,
@@ -368,7 +369,7 @@ prop(
     "C15",
     anchor_modules=TABLE_MODS + ["specs.base", "specs.native.v1.models", "composers.native"],
     rules=[_t(T.rule_T0), _t(T.rule_T1), _t(T.rule_T5), OPT.rule_E7, SC.rule_S2, SC.rule_S3,
-           SC.rule_S4, SC.rule_S5, SC.rule_S6, SC.rule_S7, OPT.rule_U1, X.rule_X4],
+           SC.rule_S4, SC.rule_S5, SC.rule_S6, SC.rule_S7, SC.rule_S8, OPT.rule_U1, X.rule_X4],
     controls=[K.ctl_unguarded_staged_deref, K.ctl_unguarded_task_name, K.ctl_drop_detector,
               K.ctl_untracked_property, K.ctl_validate_prefilter,
               K.ctl_has_expressions_ignores_blocks],
